@@ -1,6 +1,7 @@
 import Driver.Common
 import Rpki.Model.Chain
 import Rpki.Model.AsDer
+import Rpki.Model.IpDer
 namespace Driver.C03
 open Driver Rpki.Chain
 
@@ -59,6 +60,28 @@ def famTag (op : String) : Blk → String := if op.startsWith "as" then asTag el
 
 def handle (toks : List String) (impl : String) : Verdict :=
   match toks with
+  | ["ip-der", fam, h] =>
+    match (parseHex h).map (·.map UInt8.toNat) with
+    | none => badOp "hex"
+    | some b =>
+      let W := if fam = "4" then 32 else 128
+      let m := match Rpki.IpDer.decodeBlocks W b with
+        | none => "err"
+        | some c => s!"blocks {showChain ipTag c}"
+      { model := some m,
+        oracle := if impl.startsWith "blocks " then checkSet M128 ipTag (impl.drop 7).toString []
+                    (fun x => (parseTagged (impl.drop 7).toString).any (fun tb => memb (tb.map (·.1)) x))
+                  else none }
+  | ["ip-enc", a] =>
+    match parseBlocks a with
+    | none => badOp "blocks"
+    | some c =>
+      let enc := Rpki.IpDer.encodeBlocks c
+      { model := some (toHex (enc.map UInt8.ofNat)),
+        oracle := match (parseHex impl).map (·.map UInt8.toNat) with
+          | none => some "unreadable"
+          | some der => if Rpki.IpDer.decodeBlocks 128 der = some c then none
+                        else some "the encoded IP blocks do not decode back to the same set" }
   | ["as-der", h] =>
     match (parseHex h).map (·.map UInt8.toNat) with
     | none => badOp "hex"
